@@ -203,7 +203,7 @@ impl Property for C06 {
     }
     fn assumptions(&self) -> Vec<&'static str> {
         vec![
-            "states are in bounds (the single-sample route rejects out-of-bound states; the set route is not required to) and never give values for fixed or dependent variables",
+            "states are in bounds (the single-sample route rejects out-of-bound states; the set route is not required to) and never give values for dependent variables; a quarter of the states echo fixed variables back with another in-bound value",
             "the two routes run the same f64 arithmetic per state, so agreement is required bit for bit (-0.0 == 0.0)",
         ]
     }
@@ -225,6 +225,7 @@ impl Property for C06 {
         let omit_irrelevant = rng.chance(1, 3);
         let mut states: Vec<v1::State> = vec![];
         let mut any_omitted = false;
+        let mut any_echo = false;
         for _ in 0..nstates {
             let give: BTreeSet<u64> = inst
                 .decision_variables
@@ -236,7 +237,21 @@ impl Property for C06 {
             if inst.decision_variables.iter().any(|v| !hidden.contains(&v.id) && !give.contains(&v.id)) {
                 any_omitted = true;
             }
-            states.push(gen_state_in_bounds(rng, &inst, Some(&give), regime));
+            let mut st = gen_state_in_bounds(rng, &inst, Some(&give), regime);
+            // a solver may echo a fixed variable back (with a slightly different in-bound value): both
+            // routes must still report the fixed value
+            if rng.chance(1, 4) {
+                for v in inst.decision_variables.iter().filter(|v| v.substituted_value.is_some()) {
+                    if rng.bool() {
+                        st.entries.insert(v.id, value_in_bound(rng, v, regime));
+                        any_echo = true;
+                    }
+                }
+            }
+            states.push(st);
+        }
+        if any_echo {
+            mon.facet("some-state-echoes-a-fixed-variable");
         }
         let assign: Vec<(u64, usize)> = ids.iter().map(|i| (*i, rng.usize_below(nstates))).collect();
         let submitted: BTreeSet<u64> = ids.iter().cloned().collect();
